@@ -1,0 +1,26 @@
+//go:build verif
+
+// Package verifhook provides named schedule points for the verification
+// harness. It is only active when the module is built with `-tags verif`;
+// without the tag Yield is an empty function (see hook_off.go).
+package verifhook
+
+import "sync/atomic"
+
+type hookFunc func(point string, subject any)
+
+var hook atomic.Value // hookFunc
+
+// Set installs (or, with nil, removes) the function called at every Yield.
+func Set(f func(point string, subject any)) {
+	hook.Store(hookFunc(f))
+}
+
+// Yield marks a point between two critical sections. The subject tells the
+// controller which logical thread reached the point (the registration being
+// ingested, or nil for the expiry sweeper).
+func Yield(point string, subject any) {
+	if f, _ := hook.Load().(hookFunc); f != nil {
+		f(point, subject)
+	}
+}
